@@ -22,7 +22,13 @@ REQUIRED = [
     'Ems.C10.face_face_symm', 'Ems.C10.face_face_iff_shared_edge', 'Ems.C10.derived_tables_consistent',
     'Ems.C10.derived_topology', 'Ems.C10.topology_all_derived',
     'Ems.C10.quirk_coords_in_data_vars_violates', 'Ems.C10.quirk_two_dim_guess_violates',
-    'Ems.C10.supplied_face_edge_numbering_not_followed',
+    'Ems.C10.edge_node_follows_face_edge', 'Ems.C10.edge_node_follows_edge_face',
+    'Ems.C10.edge_face_describes_iff', 'Ems.C10.edge_node_array_precedence',
+    'Ems.C10.derived_numbering_consistent', 'Ems.C10.derived_numbering_consistent_edge_face',
+    'Ems.C10.follow_face_edge_raises_iff', 'Ems.C10.follow_face_edge_rows',
+    'Ems.C10.follow_edge_face_falls_back_iff', 'Ems.C10.follow_edge_face_fewer_rows',
+    'Ems.C10.own_numbering_violates_face_edge_clause', 'Ems.C10.own_numbering_violates_edge_face_clause',
+    'Ems.C10.supplied_face_edge_numbering_followed',
 ]
 RULE = ('UGRID datasets built from structured meshes (lattice cut-outs mixing triangles, quads, concave pentagons / '
         'hexagons / octagons, collinear mid-edge nodes, dropped cells, both windings, shuffled numbering; plus tiny '
@@ -45,23 +51,38 @@ RULE = ('UGRID datasets built from structured meshes (lattice cut-outs mixing tr
         'twice -- after the first look a second dataset object over the same variables (shallow copy, '
         'assign_attrs, full-slice isel) gets a fresh accessor, reads the tables in the opposite order, and must '
         'answer exactly what the first did (the model is given the dataset as it was BEFORE emsarray saw it). '
+        'And the NUMBERING of derived edges: every pool mesh with face_edge and / or edge_face (and optionally '
+        'face_face) supplied but no edge_node table, in two or three freshly shuffled edge numberings (so that the '
+        'supplied numbering differs from the order in which emsarray derives edges itself, and the interchangeable '
+        'boundary sides of one face come in another order than first seen), both index bases, NaN / integer fill / '
+        'netCDF round trip, both layouts of a boundary row of edge_face ([face, -] and [-, face]), normal and '
+        'transposed: edge_node_array is compared EXACTLY, row by row, with the model, which computes the numbering '
+        'from the supplied table itself (Ems.Mesh.makeEdgeNodeFollowingFaceEdge / ...EdgeFace); plus supplied tables '
+        'that do NOT describe the mesh (single cells overwritten: an entry beyond the edges, a negative one, a '
+        'masked one, two sides numbered alike, an edge_face row listing other faces / the same faces once too '
+        'often, a table with a row too few): IndexError, a masked row, or the fall-back to the own numbering, as '
+        'modelled. '
         'Compared per dataset, in one line: face_node_array, '
         'edge_node_array, face_edge_array, edge_face_array, face_face_array (raw, masked cells as "-", exceptions as '
         'a small enum), the five has_valid_* flags, the five discovered dimension names, the polygon vertex rings '
         'and the stored face centres. The model is fed the dataset handed to emsarray (generator output, never read '
         'back from emsarray); the only thing taken from emsarray is the ORDER in which it numbered derived edges, '
-        'which the model accepts only if it is a renumbering of its own derived edge list (the property leaves that '
-        'numbering free). Independently, a brute-force Python oracle states the property on the real outputs against '
+        'which the model accepts only if it is a renumbering of its own derived edge list, and uses only where the '
+        'dataset supplies no table that numbers the edges (the property leaves the numbering free there; with a '
+        'supplied face_edge or edge_face table the model ignores it). Independently, a brute-force Python oracle states the property on the real outputs against '
         'the generator\'s faces: identical faces / polygons across encodings, supplied tables returned as given, '
-        'edges = consecutive node pairs each once, face_edge / edge_face / face_face consistent with the node pairs, '
+        'edges = consecutive node pairs each once, a derived edge_node table in the numbering of the supplied '
+        'face_edge (row face_edge[f][c] is side c of face f) or edge_face table (the faces containing edge e are '
+        'row e), face_edge / edge_face / face_face consistent with the node pairs, '
         'symmetric adjacency, dimension names, stored centres. A case is non-trivial when it is a distinct '
         '(mesh, encoding, options) combination; the encoding product is enumerated completely (exhaustive).')
 TRUSTED = [
     'numpy masked arrays, numpy.transpose, xarray attribute / encoding / dims / sizes semantics and the netCDF '
     'round trip (modelled by Ems.Mesh.toIndexArray / Ems.Mesh.DS, cross-checked on every generated dataset)',
     'shapely.polygons builds the ring it is given (vertex rings compared exactly)',
-    'the order in which emsarray numbers derived edges is read from emsarray and validated by the model '
-    '(Ems.Mesh.isRenumbering) before use',
+    'the order in which emsarray numbers derived edges where the dataset numbers none (no valid edge_node, '
+    'face_edge or edge_face table, or an edge_face table that does not describe the sides) is read from emsarray '
+    'and validated by the model (Ems.Mesh.isRenumbering) before use',
     'xarray: Dataset.copy() / assign_attrs / isel(slice(None)) hand out new dataset objects over the same '
     'variable data (what makes the second look a look at the same variables); the integer storage type of a '
     'table is not part of the model (its tables are unbounded integers): the medium meshes beyond the first '
@@ -74,11 +95,15 @@ ASSUMPTIONS = [
     'what happens otherwise (IndexError, modelled)',
     'a dataset with neither a declared nor an implied edge dimension is outside the quantifier: the derived edge '
     'tables raise NoEdgeDimensionException (modelled and compared, not judged)',
-    'a dataset that supplies edge_face but neither edge_node nor face_edge does not determine which node pair a '
-    'boundary edge is: joint consistency of edge_face with the derived edge_node is not demanded there',
+    'a supplied edge_face table does not tell the boundary sides of one face apart: any assignment of them to the '
+    'rows listing that face alone satisfies the property (the code and the model hand them out in first-seen '
+    'order; the oracle demands only that the faces containing edge e are row e)',
 ]
 LEVEL_NOTE = ('normalise_encode, the derived-table specifications and their joint consistency (derived_tables_consistent, '
-              'derived_topology) are proved for all meshes and all edge renumberings; the file / xarray layer '
+              'derived_topology) are proved for all meshes and all edge renumberings; that a derived edge_node table '
+              'follows a supplied face_edge / edge_face numbering, entry by entry (edge_node_follows_face_edge, '
+              'edge_node_follows_edge_face, derived_numbering_consistent), with the exact fall-back conditions, for all '
+              'meshes; the file / xarray layer '
               '(attribute lookup, netCDF decoding) is modelled and tied by the correspondence only.')
 
 ARRAYS = ['face_node_array', 'edge_node_array', 'face_edge_array', 'edge_face_array', 'face_face_array']
@@ -421,9 +446,39 @@ def _oracle(recipe: dict, built: G.Built, obs: Observed, expect_valid: set, foun
         if obs.tables[k] is None:
             fail('derived-table-raises', f'{k} raised {obs.errs[k]} on a valid mesh with an edge dimension')
             return
-    # the edge numbering is pinned by the first of: supplied edge_node, supplied face_edge
+    # the edge numbering is pinned by the first of: supplied edge_node, supplied face_edge, supplied edge_face
     pinned_inconsistent = 'edge_node' not in expect_valid and 'face_edge' in expect_valid
-    edge_face_only = 'edge_node' not in expect_valid and 'face_edge' not in expect_valid and 'edge_face' in expect_valid
+    # --- a supplied table that numbers the edges is the numbering of a derived edge_node table --------
+    # (stated from the tables the generator wrote, not from what emsarray returned for them)
+    ignored = None
+    if 'edge_node' not in expect_valid and 'face_edge' in expect_valid:
+        want_fe = ex['face_edges']
+        bad = [(fi, c) for fi, f in enumerate(faces) for c, p in enumerate(pairs_of(f))
+               if not (0 <= want_fe[fi][c] < len(en)) or frozenset(en[want_fe[fi][c]]) != p]
+        if bad:
+            fi, c = bad[0]
+            k = want_fe[fi][c]
+            ignored = (f'face_edge is supplied and edge_node is derived: edge_node_array[face_edge[{fi}][{c}] = {k}] = '
+                       f'{en[k] if 0 <= k < len(en) else "(no such row)"} is not side {c} of face {fi}, '
+                       f'{sorted(pairs_of(faces[fi])[c])} ({len(bad)} such sides)')
+    elif 'edge_node' not in expect_valid and 'edge_face' in expect_valid:
+        containing: dict = {}
+        for fi, f in enumerate(faces):
+            for p in pairs_of(f):
+                containing.setdefault(p, set()).add(fi)
+        want_ef = ex['edge_face_rows']
+        bad = [e for e, row in enumerate(want_ef)
+               if e >= len(en) or set(compress(row)) != containing.get(frozenset(en[e]), set())]
+        if len(want_ef) != len(en):
+            bad = bad or [min(len(want_ef), len(en))]
+        if bad:
+            e = bad[0]
+            ignored = (f'edge_face is supplied and edge_node is derived: row {e} of edge_face lists faces '
+                       f'{compress(want_ef[e]) if e < len(want_ef) else "(no such row)"}, but the faces containing '
+                       f'edge_node_array[{e}] = {en[e] if e < len(en) else "(no such row)"} are '
+                       f'{sorted(containing.get(frozenset(en[e]), set())) if e < len(en) else "-"} ({len(bad)} such edges)')
+    if ignored:
+        fail('derived-edge-node-ignores-supplied-numbering', ignored)
     # J1: a face's edges are its consecutive node pairs
     j1 = len(fe) == len(faces) and all(
         len(row) == width
@@ -445,14 +500,14 @@ def _oracle(recipe: dict, built: G.Built, obs: Observed, expect_valid: set, foun
         len(row) == width and sorted(compress(row)) == sorted(
             gi for p in pairs_of(f) for gi in sides[p] if gi != fi)
         for (fi, f), row in zip(enumerate(faces), ff))
-    if pinned_inconsistent:
+    if ignored:
+        # (J1 / J2 below would only repeat it)
+        pass
+    elif pinned_inconsistent:
         if not (j1 and j2):
             fail('ugrid-derived-edge-node-ignores-supplied-face-edge-numbering',
                  'face_edge is supplied, edge_node is derived with its own numbering: '
                  f'edge_node_array[face_edge_array[f][c]] is not the c-th node pair of face f (J1={j1}, J2={j2})')
-    elif edge_face_only:
-        if not j1:
-            fail('face-edge-spec', 'derived face_edge does not list the consecutive node pairs of each face')
     else:
         if not j1:
             fail('face-edge-spec', f'face_edge {rows_str(fe)} vs edge_node {rows_str(en)}: a face\'s edges are not its consecutive node pairs')
@@ -659,6 +714,7 @@ def run(ctx) -> None:
     for mesh in lattices:
         sampled_cases(ctx, items, mesh)
     storage_cases(ctx, items, pool)
+    follow_cases(ctx, items, pool)
     malformed(ctx, items, pool)
     # conclusions of the theorems, evaluated on the model
     for mesh in pool:
@@ -669,6 +725,125 @@ def run(ctx) -> None:
         return
     ctx.check_batch(items)
     settle_flagged(ctx)
+
+
+FOLLOW_TABLES = [['face_edge'], ['edge_face'], ['face_edge', 'edge_face'], ['face_edge', 'face_face'],
+                 ['edge_face', 'face_face'], ['face_edge', 'edge_face', 'face_face']]
+
+
+def edge_node_item(line: str, obs: Observed, desc: dict) -> tuple:
+    """the correspondence item of the `edgenode` op: face_node, edge_node, face_edge only"""
+    assert line.startswith('topo ')
+    return ('edgenode ' + line[len('topo '):], '|'.join(obs.line().split('|')[:3]), desc)
+
+
+def table_token(rows: list) -> str:
+    return 'e' if not rows else ';'.join(','.join('-' if v is None else str(v) for v in row) for row in rows)
+
+
+def follow_cases(ctx, items: list, pool: list) -> None:
+    """The NUMBERING of derived edges. The dataset supplies face_edge and / or edge_face (tables that number
+    the edges) but no edge_node table: the derived edge_node table must be in that numbering. Every pool mesh,
+    in freshly shuffled numberings that differ from the order in which the edges are first seen walking the
+    faces (the order a derivation that ignores the supplied table would produce, up to its own accidents),
+    both bases, every fill kind, both layouts of a boundary row, normal / transposed. The model computes the
+    numbering from the supplied table; the comparison of edge_node_array is exact, row by row.
+    Then supplied tables that do not describe the mesh (compared with the model, not judged by the oracle)."""
+    rng = ctx.rng
+    n = 0
+    for mesh in pool:
+        faces = mesh['faces']
+        first_seen = [frozenset(e) for e in G.mesh_edges(faces)]
+        owner: dict = {}
+        for fi, f in enumerate(faces):
+            for p in pairs_of(f):
+                owner.setdefault(p, []).append(fi)
+        for _rep in range(ctx.budget(2, 3)):
+            edges = M.shuffled_edges(rng, faces)
+            for _ in range(8):
+                if [frozenset(e) for e in edges] != first_seen:
+                    break
+                edges = M.shuffled_edges(rng, faces)
+            number = {frozenset(e): k for k, e in enumerate(edges)}
+            differs = [frozenset(e) for e in edges] != first_seen
+            # boundary sides of one face (interchangeable for an edge_face table) numbered in another order than first seen
+            reordered = False
+            for fi in range(len(faces)):
+                mine = [number[p] for p in first_seen if owner[p] == [fi]]
+                reordered = reordered or mine != sorted(mine)
+            for tables in FOLLOW_TABLES:
+                n += 1
+                fill = ('nan', 'attr', 'nc')[(n // 2) % 3]
+                opt = {}
+                if fill == 'nc':
+                    if not ctx.thorough and n % 4 >= 2:
+                        fill = 'attr'
+                    else:
+                        fill, opt['netcdf'] = 'attr', True
+                enc = {'start_index': n % 2, 'fill': fill, 'transposed': n % 5 == 3, 'tables': list(tables),
+                       # (face_edge alone implies no edge dimension: it has to be declared)
+                       'edge_dim_declared': 'edge_face' not in tables or n % 3 == 0,
+                       'edge_face_missing_first': n % 4 < 2}
+                if fill == 'attr' and n % 7 == 0:
+                    enc['fill_spec'] = ('low', 'neg', 'u4max')[(n // 7) % 3]
+                if n % 6 == 5:
+                    opt['relook'] = next_relook(ctx)
+                recipe = {'conv': 'ugrid', 'nodes': mesh['nodes'], 'faces': faces, 'edges': edges, 'enc': enc}
+                if opt:
+                    recipe['c10'] = opt
+                one_case(ctx, items, recipe, set(tables), 'follow')
+                ctx.nontrivial((mesh['name'], 'follow', n, enc_key(enc, opt)))
+                ctx.count('follow:' + '+'.join(tables))
+                if differs:
+                    ctx.count('follow:supplied-numbering-differs-from-first-seen')
+                if reordered and 'face_edge' not in tables:
+                    ctx.count('follow:interchangeable-boundary-sides-reordered')
+            # the conclusions of the theorems on the model, for this mesh and numbering
+            built = M.build({'conv': 'ugrid', 'nodes': mesh['nodes'], 'faces': faces, 'edges': edges,
+                             'enc': {'tables': [], 'edge_dim_declared': True}})
+            ex = built.extra
+            items.append((f"followcheck w={ex['maxn']} faces={M.rows_token(faces)} "
+                          f"fe={table_token([pad(r, ex['maxn']) for r in ex['face_edges']])} "
+                          f"ef={table_token(ex['edge_face_rows'])}", 'ok',
+                          {'mesh': mesh['name'], 'kind': 'followcheck', 'edges': edges}))
+    # supplied tables that do not describe the mesh
+    by_name = {m['name']: m for m in pool}
+    lattices = [m for m in pool if m['name'].startswith('lattice')]
+    for mesh in [by_name['one-triangle'], by_name['two-quads'], by_name['octagon'], by_name['fan']] + lattices[:2]:
+        faces = mesh['faces']
+        edges = M.shuffled_edges(rng, faces)
+        ne = len(edges)
+        number = {frozenset(e): k for k, e in enumerate(edges)}
+        fe0 = [number[p] for p in pairs_of(faces[0])]
+        last = len(faces) - 1
+        broken = [
+            ('face_edge', [[0, 0, ne]]),            # an entry one beyond the edges: IndexError
+            ('face_edge', [[0, 1, ne + 5]]),
+            ('face_edge', [[0, 0, -1]]),            # a negative entry counts from the end (numpy)
+            ('face_edge', [[last, 1, -ne]]),
+            ('face_edge', [[0, 0, -ne - 1]]),       # beyond the beginning: IndexError
+            ('face_edge', [[0, 0, None]]),          # masked where the face has a side: IndexError
+            ('face_edge', [[0, 0, fe0[1]]]),        # two sides numbered alike: a masked row
+            ('face_edge', [[0, 0, fe0[1]], [0, 1, fe0[0]]]),   # two entries swapped: still one number per side
+            ('edge_face', [[0, 0, last], [0, 1, None]]),       # a row listing other faces
+            ('edge_face', [[0, 0, None], [0, 1, None]]),       # a row listing no face at all
+            ('edge_face', [[ne - 1, 0, 0], [ne - 1, 1, 0]]),   # the same face twice: one face as a set
+            ('edge_face', [[0, 0, len(faces)]]),               # a face that does not exist
+        ]
+        for k, (key, edits) in enumerate(broken):
+            for tables in ([key], [key, 'face_face'], ['face_edge', 'edge_face']):
+                if tables[-1] == 'face_face' and k % 3:
+                    continue
+                enc = {'start_index': (k + len(tables)) % 2, 'fill': 'attr' if k % 2 else 'nan', 'transposed': k % 4 == 3,
+                       'tables': tables, 'edge_dim_declared': True}
+                recipe = {'conv': 'ugrid', 'nodes': mesh['nodes'], 'faces': faces, 'edges': edges, 'enc': enc,
+                          'c10': {'corrupt': {key: edits}}}
+                # (compared: face_node, edge_node, face_edge -- what make_edge_face_array / make_face_face_array do
+                # with a negative edge index or a row naming one face twice is outside the model)
+                built, obs, line = observe(recipe)
+                items.append(edge_node_item(line, obs, {'recipe': recipe, 'kind': 'follow-broken'}))
+                ctx.count('kind:follow-broken')
+                ctx.nontrivial((mesh['name'], 'follow-broken', k, tuple(tables)))
 
 
 NOFILL_TABLES = [[], ['face_edge'], ['edge_node'], ['edge_node', 'face_edge']]
@@ -872,6 +1047,8 @@ def run_one(ctx, inp: dict) -> dict:
         else:
             built, obs, line = observe(recipe)
             impl = obs.line()
+            if inp.get('kind') == 'follow-broken':
+                line, impl, _ = edge_node_item(line, obs, {})
             if obs.second is not None:
                 out['impl[second look]'] = obs.second.line()
             if built.extra.get('storage_cast') is not None:
